@@ -3,6 +3,7 @@
 package geom
 
 func init() {
+	vfHarnesses["C10_map_order_all"] = vfhC10MapOrder
 	vfHarnesses["C10_map_order_shapes"] = vfhC10MapOrderShapes
 	vfHarnesses["C10_frozen_inputs"] = vfhC10FrozenInputs
 	vfHarnesses["C10_aliasing"] = vfhC10Aliasing
